@@ -212,4 +212,19 @@ META = {
         "level_note": "trusted: audit-hook tracer (sees Python-level file operations), POSIX rename atomicity, no lost page-cache model",
         "technique": "fault enumeration over the recorded file-system event trace (exception / process death / torn write at every event) + fresh-context state oracle + retry",
     },
+    "C02": {
+        "level_text": (
+            "Random histories of set_config (tracked, untracked, shared and child options), re-registration of "
+            "same-named plugins with another default / version / dependency / class name, new_context, make and "
+            "get_array run on two long-lived contexts sharing one storage directory; after every step both "
+            "contexts' key tables and every returned array are compared with a brand-new context built from the "
+            "same definitions (row values encode class name, version and all tracked options, so stale data is "
+            "visible in the values); each mutating step must change exactly the keys of the affected plugin and "
+            "its descendants; key tables are recomputed in other processes with hash seeds 0 / 1 / random and "
+            "shuffled option order; fuzzy matching is compared with an independent atom-wise lineage diff and "
+            "must not write."
+        ),
+        "level_note": "trusted: fresh-context oracle; JSON-serialisable option values only; 5-plugin graph with shared option and child plugin",
+        "technique": "history-based runtime monitoring: long-lived contexts vs fresh-context reference after every step of random operation histories; cross-process key determinism probe",
+    },
 }
